@@ -125,7 +125,7 @@ func cmdCheck(args []string) int {
 	}
 	for _, k := range sortedKeys(p.cs.Fns) {
 		con := p.cs.Fns[k]
-		if con.External || !contractHasTag(p.cs, con, *prop) {
+		if con.External || con.IfaceMethod || !contractHasTag(p.cs, con, *prop) {
 			continue
 		}
 		addFn(shortKey(k), false)
